@@ -28,6 +28,7 @@ def run(ctx):
     # where only a name may appear) must leave the site unchanged
     slots = fr.text_vectors(ctx, "corpus/slots/vectors.json", "C03")
     results += fr.replay_and_judge(ctx, "slots", slots, None, shards=4)
+    results += fr.replay_and_judge(ctx, "inter", fr.text_vectors(ctx, "corpus/inter/vectors.json", "C03"), None, shards=8)
     st = fr.classify(ctx, results, known, accept_classes=("wrongrepl", "error"))
     states, trans = fr.mc_counts(ctx)
     cov = dict(states=states, transitions=trans, traces_validated_against_impl=st["cases"],
